@@ -73,6 +73,23 @@ func c16say(s string) {
 	os.Stdout.WriteString(c16tag + s + "\n") // one write per line: a kill cannot leave a torn line that parses
 }
 
+// c16emptyMem creates the empty memtable file a kill between os.OpenFile(O_CREATE) and Truncate leaves behind.
+func c16emptyMem(dir string) {
+	ents, err := os.ReadDir(dir)
+	if err != nil {
+		return
+	}
+	max := 0
+	for _, e := range ents {
+		if strings.HasSuffix(e.Name(), ".mem") {
+			if n, err := strconv.Atoi(strings.TrimSuffix(e.Name(), ".mem")); err == nil && n > max {
+				max = n
+			}
+		}
+	}
+	_ = os.WriteFile(filepath.Join(dir, fmt.Sprintf("%05d.mem", max+1)), nil, 0o666)
+}
+
 // ---------------------------------------------------------------- child
 func TestVerifCrashChild(t *testing.T) {
 	mode := os.Getenv("VERIF_CRASH_MODE")
@@ -318,6 +335,12 @@ func TestVerifCrash(t *testing.T) {
 			fmt.Fprintf(w, "cyc %s cycle=%d start=%d acked=%d killafter=%d delayus=%d idle=%v storefailures=%d\n", cid, c, next, len(acked), killAfter, delay.Microseconds(), idle, failedStores)
 			if end >= next {
 				next = end + 1
+			}
+			if soak && c%5 == 3 {
+				// crash-point enumeration inside badger's own Open: a process killed between creating the next memtable
+				// write-ahead file and sizing it leaves an empty NNNNN.mem behind. That instant is microseconds wide, so
+				// the on-disk state it leaves is produced directly instead of waiting for a kill to land there.
+				c16emptyMem(dir)
 			}
 			if soak && c%8 != 0 && c != cycles {
 				continue // soak directory: read back only now and then
